@@ -28,9 +28,14 @@ class C07Validation(Harness):
                 yield f"val-{form}-M{M}", dict(M=M, form=form)
         for bad in ("shape_n3", "ndim3", "scalar"):
             yield f"val-bad-{bad}", dict(M=2, form=bad)
+        # fixed-width binnings with an ARBITRARY symbolic width: accepted iff the width is positive (zero-width bins are not rising)
+        for form in ("fixed_ctor", "fixed_factory", "integer_factory"):
+            yield f"val-{form}-width", dict(M=2, form=form)
 
     def declare(self, cx, p):
         M = p["M"]
+        if p["form"] in ("fixed_ctor", "fixed_factory", "integer_factory"):
+            return {"w": cx.pyfloat("w"), "t": cx.pyint("t", -2, 2)}
         if p["form"].startswith("pairs") or p["form"] in ("as_binning_pairs", "static_binning_fn"):
             return {"l": cx.reals("l", M), "r": cx.reals("r", M)}
         return {"e": cx.reals("e", M + 1)}
@@ -45,6 +50,16 @@ class C07Validation(Harness):
             r = E.attempt(B.StaticBinning, np.asarray([[[0.0, 1.0]], [[1.0, 2.0]]]))
         elif form == "scalar":
             r = E.attempt(B.as_binning, 5)
+        elif form in ("fixed_ctor", "fixed_factory", "integer_factory"):
+            if form == "fixed_ctor":
+                r = E.attempt(B.FixedWidthBinning, bin_width=x["w"], bin_count=2, bin_times_min=x["t"])
+            elif form == "fixed_factory":
+                r = E.attempt(B.fixed_width_binning, None, bin_width=x["w"])
+            else:
+                r = E.attempt(B.integer_binning, None, bin_width=x["w"])
+            if isinstance(r, Raised):
+                return {"res": {"raised": r}}
+            return {"res": {"bins": _l(r.bins), "cls": type(r).__name__, "count": r.bin_count, "width": r.bin_width}}
         elif "l" in x:
             pairs = np.asarray([[l, r_] for l, r_ in zip(x["l"], x["r"])])
             ctor = {"pairs_static": B.StaticBinning, "as_binning_pairs": B.as_binning, "static_binning_fn": lambda b: B.static_binning(None, bins=b)}[form]
@@ -64,6 +79,14 @@ class C07Validation(Harness):
         res = obs["res"]
         if p["form"] in ("shape_n3", "ndim3", "scalar"):
             yield "wrong_shape_refused", "raised" in res and res["raised"].name in ("ValueError", "TypeError", "IndexError")
+            return
+        if "w" in x:
+            w = cx.t(x["w"])
+            if "raised" in res:
+                yield "refused_only_if_width_not_positive", z3.And(w <= 0, z3.BoolVal(res["raised"].name == "ValueError"))
+            else:
+                yield "accepted_only_if_width_positive", w > 0
+                yield "bins_rising", z3.And([cx.t(b[0]) < cx.t(b[1]) for b in res["bins"]] + [cx.t(res["width"]) == w])
             return
         if "l" in x:
             L, R = [cx.t(i) for i in x["l"]], [cx.t(i) for i in x["r"]]
